@@ -1204,3 +1204,17 @@ def cases(tier, seed):
             add("blockpos.rejects", dict(dims=d, k=2, family="witness-k2", r=2, profile="equal", delta=0.2, seed=seed, effort=eff), "is_block_positive/witness-k2/%s" % _eq(d), True)
             add("blockpos.accepts", dict(dims=d, k=2, family="witness-plus", r=2, profile="equal", delta=0.6, seed=seed, effort=eff), "is_block_positive/witness-k2-plus/%s" % _eq(d), True)
     return out
+
+
+# =============================================================================================
+# deductive part (prover side) and its replay clauses
+# =============================================================================================
+from props.C14_prove import EXTRA_CLAUSES as _EXTRA  # noqa: E402
+from props.C14_prove import prove  # noqa: E402,F401
+
+CLAUSES.update(_EXTRA)
+LEVEL = "other"
+ENGINES = ["E1-pyvc", "E3-E4-rtc"]
+LEVEL_TEXT = 'Mixed. Proved (E1): the matrix handed to LAPACK by schmidt_rank / schmidt_decomposition is the amplitude matrix (or its transpose) for ALL local dimensions; purity and l1_norm_coherence compute their defining formula over uninterpreted library operations (E1-term). Everything else (closed forms on states with prescribed Schmidt data, invariances, is_product, S(k) norms) is a bounded run-time contract check.'
+EXPLANATION = LEVEL_TEXT
+TECHNIQUE = "VCs from the real AST discharged by z3 (index contract on the amplitude matrix; formula contracts over uninterpreted library operations) + bounded run-time-checked contracts on the real functions"
